@@ -84,9 +84,10 @@ def check_read_back(prog, data, nptdms, version, model):
 def _check_read_back(prog, data, nptdms, version, model):
     out = []
     T = nptdms.TdmsFile
+    src = (lambda: data) if isinstance(data, str) else (lambda: io.BytesIO(data))
     try:
-        fr = T.read(io.BytesIO(data), raw_timestamps=True)
-        fc = T.read(io.BytesIO(data), raw_timestamps=False)
+        fr = T.read(src(), raw_timestamps=True)
+        fc = T.read(src(), raw_timestamps=False)
     except Exception as ex:  # noqa
         return ["reading the written file raised %r" % ex]
     if fr.tdms_version != version:
@@ -149,7 +150,7 @@ def _check_read_back(prog, data, nptdms, version, model):
                 out.append("property %r of %r: wrote %r, read %r" % (n, key, v[:3], objr.properties[n]))
     # TDMS type of every property as written (strict parser on the real bytes), last write wins
     if model is not None and not out:
-        st = model.ask("strict %s -" % hx(data))
+        st = model.ask("strict %s -" % hx(open(data, "rb").read() if isinstance(data, str) else data))
         if st.get("ok"):
             last = {}
             for seg in st["objects"]:
@@ -236,6 +237,7 @@ def run(ctx):
         version = ctx.rnd.choice([4712, 4713])
         stats["programs"] += 1
         full_line = gw.to_line(prog, version)
+        full_prog = prog
         data, index, accepted_prog, n_rej, err = real_write_resilient(prog, nptdms, version)
         if n_rej:
             # some write_segment calls raised: the model must reject the full program too, and the calls that raised must have
@@ -278,6 +280,19 @@ def run(ctx):
                                             signature="type-change-across-sessions" if tk == "across" else None))
             continue
         probs = check_read_back(prog, data, nptdms, version, model)
+        if not probs and i % 5 == 0:
+            # the same program written to a path with index_file=True and read back THROUGH THE PATH (the reader then takes its metadata
+            # from the index the writer produced)
+            import tempfile
+            d_ = tempfile.mkdtemp(prefix="nptdms_verif_c07_")
+            try:
+                pth = os.path.join(d_, "p.tdms")
+                acc2, _rej2, err2 = gw.write_resilient(full_prog, nptdms, version, None, None, by_path=pth)
+                if err2 is None and any(acc2):
+                    stats["by_path_with_index"] = stats.get("by_path_with_index", 0) + 1
+                    probs = ["(written to a path with index_file=True, read through the path) " + x for x in check_read_back(acc2, pth, nptdms, version, model)]
+            finally:
+                shutil.rmtree(d_, ignore_errors=True)
         if probs:
             violations.append(Violation("write -> read: " + probs[0], dict(kind="program", program=line, problems=probs[:5], file=data.hex())))
         if len(prog) > 1 or any(len(s) > 1 for s in prog):
